@@ -296,7 +296,7 @@ def FullStatement_tr_invariance_all (T : Tr) (s : SchemaD) (fx : Fixes) (d : Doc
 /-- **perm_selections / perm_arguments / alpha_fragments for 24 rules** (the 25 of `ProvedTrAll` without
     SingleFieldSubscriptions, whose clause - the collected response keys, C06-H6 - is shown invariant in
     Props/C06_inv10.lean: `tr_invariance_single_field_subscriptions`, `tr_invariance_25_partial`): code of /repo HEAD, documents with unique
-    fragment names that are non-empty before and after the renaming (needed by NoFragmentCycles only) -/
+    fragment names that are non-empty before and after the renaming (needed by NoFragmentCycles only) [ALONE-RUN statement, rule by rule: each rule visitor in a chain of its own; for the verdict of the chain `validate_ast` runs see `Props/C06_chain.lean: chainM_six_transformations`.] -/
 theorem tr_invariance_all25_partial (T : Tr) (hinj : ∀ a b, T.frag a = T.frag b → a = b) (s : SchemaD) (fx : Fixes)
     (hfx : HeadVars fx) (d : Doc) (hnd : Spec.uniqueFragmentNames d) (hne : NamesNonEmpty d)
     (hne' : NamesNonEmpty (T.doc d)) (r : Rule) (hr : r ∈ ProvedTrAll) (hns : r ≠ .singleFieldSubscriptions) :
